@@ -12,7 +12,7 @@ SPEC = {
                   "every graph, gc_sibling labels, tests of tests and all arguments; `Needed` is the least fixpoint of roots, dependencies and "
                   "'a test of a needed target'. The four defects of the pinned code were repaired with fix: commits (9dea07a, 0ef96ba, f5ccc0d, "
                   "031fda8). Theorems are about the transcription Model/GC.lean; the model's recursion bounds are proved unreachable "
-                  "(C25_fuel: graphs that hold their dependencies and have no dependency cycle inside one rule); subrepos, `//pkg/...` arguments, wildcard labels and the BUILD file rewriting are "
+                  "(C25_main_acyclic: unconditional on graphs that hold their dependencies and have no DECLARED-dependency cycle inside one rule — a rank function exists, ruleRank_of_acyclic; C06 checks resolved dependencies, so a declared edge that provide/require resolves away is an assumption here); subrepos, `//pkg/...` arguments, wildcard labels and the BUILD file rewriting are "
                   "not modelled",
     "technique": "Lean 4 DFS-closure invariant for addTarget lifted through every pass, fixpoint closure of the repeated test pass, completeness of publicDependencies + regenerated "
                  "facts + differential correspondence with an independent least-fixpoint oracle",
